@@ -5,6 +5,7 @@ package rx
 
 import (
 	"fmt"
+	"sort"
 	"regexp/syntax"
 	"unicode"
 )
@@ -143,6 +144,46 @@ func (e *enum) consume(set ByteSet, pos int, s st, k func(int, st)) {
 	k(pos+1, ns)
 }
 
+// look adds a requirement on a byte without consuming it.
+func (e *enum) look(set ByteSet, pos int, s st, k func(st)) {
+	if e.allowed != nil {
+		set = set.And(e.allowed[pos])
+	}
+	if set.Empty() {
+		return
+	}
+	k(st{caps: s.caps, reqs: append(append([]Req(nil), s.reqs...), Req{pos, set})})
+}
+
+// normalise sorts the requirements by position and intersects those on the same byte; ok=false when contradictory.
+func normalise(reqs []Req) ([]Req, bool) {
+	sorted := true
+	for i := 1; i < len(reqs); i++ {
+		if reqs[i].Pos <= reqs[i-1].Pos {
+			sorted = false
+			break
+		}
+	}
+	if sorted {
+		return reqs, true
+	}
+	out := append([]Req(nil), reqs...)
+	sort.SliceStable(out, func(i, j int) bool { return out[i].Pos < out[j].Pos })
+	w := 0
+	for i := 0; i < len(out); i++ {
+		if w > 0 && out[w-1].Pos == out[i].Pos {
+			out[w-1].Set = out[w-1].Set.And(out[i].Set)
+			if out[w-1].Set.Empty() {
+				return nil, false
+			}
+			continue
+		}
+		out[w] = out[i]
+		w++
+	}
+	return out[:w], true
+}
+
 func (e *enum) m(re *syntax.Regexp, pos int, s st, k func(int, st)) {
 	if e.err != nil {
 		return
@@ -184,8 +225,25 @@ func (e *enum) m(re *syntax.Regexp, pos int, s st, k func(int, st)) {
 		if pos == e.n {
 			k(pos, s)
 		}
-	case syntax.OpBeginLine, syntax.OpEndLine, syntax.OpWordBoundary, syntax.OpNoWordBoundary:
-		e.fail(&ErrUnsupported{"line/word assertions"})
+	case syntax.OpBeginLine:
+		// (?m)^ : at the start of the text or right after a newline (a look-behind on an input byte)
+		if pos == 0 {
+			k(pos, s)
+		} else {
+			var nl ByteSet
+			nl.Add('\n')
+			e.look(nl, pos-1, s, func(ns st) { k(pos, ns) })
+		}
+	case syntax.OpEndLine:
+		if pos == e.n {
+			k(pos, s)
+		} else {
+			var nl ByteSet
+			nl.Add('\n')
+			e.look(nl, pos, s, func(ns st) { k(pos, ns) })
+		}
+	case syntax.OpWordBoundary, syntax.OpNoWordBoundary:
+		e.fail(&ErrUnsupported{"word boundary assertions"})
 	case syntax.OpCapture:
 		c1 := append([]int(nil), s.caps...)
 		c1[2*re.Cap] = pos
@@ -292,7 +350,11 @@ func (m *Model) PathsAllowed(n, budget int, allowed []ByteSet) ([]Path, error) {
 			}
 			c := append([]int(nil), s.caps...)
 			c[0], c[1] = s0, p
-			e.out = append(e.out, Path{Start: s0, End: p, Caps: c, Reqs: s.reqs})
+			reqs, ok := normalise(s.reqs)
+			if !ok {
+				return
+			}
+			e.out = append(e.out, Path{Start: s0, End: p, Caps: c, Reqs: reqs})
 			if len(e.out) > e.budget {
 				e.fail(&ErrBudget{e.budget})
 			}
